@@ -60,6 +60,7 @@ def required(tier):
         "empty.middle": 500,
         "empty.trailing": 500,
         "trees.lr_with_start_position": 300,
+        "grammar.lex_corpus": 4,
     }
 
 
@@ -162,6 +163,15 @@ def run(ctx):
     con.install()
     maxlen = 4 if ctx.tier == "quick" else 5
     try:
+        for i, (name, g) in enumerate(cfg.LEX_CORPUS):
+            if ctx.mine(i):
+                ctx.count("grammar.lex_corpus")
+                text = g.text()
+                glr = pgx.glr(pgx.grammar(text))
+                case0 = {"grammar": text, "g": g.to_json(), "layout": "ws", "ignore_case": False, "named": None}
+                for w in cfg.all_strings(cfg.LEX_ALPHABET, 6 if ctx.tier == "quick" else 7):
+                    if cfg.Chart(g, w).is_sentence():
+                        check_input(ctx, g, glr, None, dict(case0, input=w), w, cfg.skip_ws)
         for name, g, alphabet in glrwork.grammar_stream(ctx, acyclic=True, eps_weights=(2, 3, 3, 4), overlap_share=0.15):
             if not ctx.more():
                 break
@@ -229,7 +239,7 @@ def one_grammar(ctx, g, alphabet, maxlen):
     for w in cfg.all_strings(alphabet, maxlen):
         if not cfg.Chart(g, w, skip=cfg.skip_none).is_sentence():
             continue
-        inp = glrwork.relayout(w, rng, fillers) if rng.random() < 0.8 else w
+        inp = glrwork.relayout(w, rng, fillers, density=0.35 if glrwork.has_overlap(g) else 1.0) if rng.random() < 0.8 else w
         if ignore_case:
             inp = "".join(c.upper() if rng.random() < 0.5 else c for c in inp)
         if layout_kind == "comments" and not comments_well_formed(inp):
